@@ -154,7 +154,16 @@ def run_driver(cwd, cargo_args, cfg_label, out_dir, target_dir, members, crates=
     r = subprocess.run(cmd, cwd=cwd, env=env, stdout=subprocess.PIPE, stderr=subprocess.STDOUT, text=True,
                        timeout=timeout)
     if r.returncode != 0:
-        raise BuildError('cargo check failed for configuration %s in %s:\n%s' % (cfg_label, cwd, r.stdout[-6000:]))
+        # once more from a cold target directory: a failure that comes from the build cache (an artefact of another tree state
+        # taken for fresh, an interrupted earlier build) must not be reported as "the tree does not compile"
+        first = r.stdout
+        shutil.rmtree(target_dir, ignore_errors=True)
+        r = subprocess.run(cmd, cwd=cwd, env=env, stdout=subprocess.PIPE, stderr=subprocess.STDOUT, text=True,
+                           timeout=timeout)
+        if r.returncode != 0:
+            raise BuildError('cargo check failed for configuration %s in %s (twice, the second time from a cold target directory):\n%s'
+                             % (cfg_label, cwd, r.stdout[-6000:]))
+        sys.stderr.write('note: the first build of configuration %s failed and a cold rebuild succeeded; first output:\n%s\n' % (cfg_label, first[-1500:]))
     return r.stdout
 
 
@@ -189,6 +198,18 @@ def build_configs(cfgs):
                 with lock:
                     errors.append(str(e))
                 return
+            stale = [p for c, p in paths.items() if not os.path.exists(p) or os.path.getmtime(p) < start - 1]
+            if stale:
+                # cargo took a crate for fresh and did not call the driver: once more from a cold target directory
+                shutil.rmtree(target, ignore_errors=True)
+                start = time.time()
+                try:
+                    run_driver(root, CONFIGS[cfg], cfg, out_dir, target,
+                               ['parity-scale-codec', 'parity-scale-codec-derive', 'codec-fuzzer'], crates=want)
+                except BuildError as e:
+                    with lock:
+                        errors.append(str(e))
+                    return
             for c, p in paths.items():
                 if not os.path.exists(p) or os.path.getmtime(p) < start - 1:
                     with lock:
